@@ -15,7 +15,57 @@ deterministic and replayable.
 from __future__ import annotations
 
 import sys
+import _thread
 import threading as _real
+
+
+class _Sem:
+    """Binary semaphore on a raw lock (much cheaper than threading.Semaphore).  The
+    scheduler's hand-off protocol guarantees release/acquire strictly alternate."""
+
+    __slots__ = ("_l",)
+
+    def __init__(self):
+        self._l = _thread.allocate_lock()
+        self._l.acquire()
+
+    def release(self):
+        self._l.release()
+
+    def acquire(self, timeout=-1):
+        return self._l.acquire(True, timeout)
+
+
+class LineHook:
+    """Line-level pre-emption through sys.monitoring (PEP 669): a LINE event is enabled
+    only on the given code objects, so code outside them runs at full speed."""
+
+    TOOL = 4
+
+    def __init__(self, sched_ref):
+        self._ref = sched_ref
+        self.codes = []
+
+    def install(self, codes):
+        mon = sys.monitoring
+        mon.use_tool_id(self.TOOL, "bounded-sched")
+        mon.register_callback(self.TOOL, mon.events.LINE, self._line)
+        for c in codes:
+            mon.set_local_events(self.TOOL, c, mon.events.LINE)
+        self.codes = list(codes)
+
+    def uninstall(self):
+        mon = sys.monitoring
+        for c in self.codes:
+            mon.set_local_events(self.TOOL, c, 0)
+        mon.register_callback(self.TOOL, mon.events.LINE, None)
+        mon.free_tool_id(self.TOOL)
+        self.codes = []
+
+    def _line(self, code, lineno):
+        s = self._ref[0]
+        if s is not None and s.line_mode and s.current is not None and not s.aborting:
+            s.point("line", lineno)
 
 
 class Abort(BaseException):
@@ -34,7 +84,7 @@ class Task:
 
     def __init__(self, idx, body):
         self.idx = idx
-        self.sem = _real.Semaphore(0)
+        self.sem = _Sem()
         self.pending = ("start", None)
         self.done = False
         self.body = body
@@ -146,15 +196,18 @@ class Sched:
 
     LOCAL = ("start", "wait", "release")
 
-    def __init__(self, choose, release_points=False, line_codes=None, max_steps=4000):
+    def __init__(self, choose, release_points=False, line_mode=False, max_steps=4000):
         self.choose = choose  # f(alternatives:list[int], last:int|None, step) -> idx
         self.release_points = release_points
-        self.line_codes = line_codes  # set of code objects traced at line level
+        self.line_mode = line_mode  # LineHook installed by the caller
         self.max_steps = max_steps
         self.tasks = []
         self.current = None
         self.aborting = False
-        self.ctl = _real.Semaphore(0)
+        self.fin = _Sem()
+        self.last = None
+        self.fault = None
+        self.stuck = []
         self.trace = []  # (alternatives tuple, chosen)
         self.on_acquire = None
         self.on_release = None
@@ -168,27 +221,33 @@ class Sched:
         self.tasks.append(t)
         return t
 
+    def _handoff(self):
+        """Called by the thread that holds the baton and is about to park or end:
+        decide who runs next and wake it (or wake the controller when finished)."""
+        nxt = self._decide()
+        if nxt is None:
+            self.fin.release()
+        else:
+            nxt.sem.release()
+
     def point(self, kind, obj=None):
         t = self.current
         if t is None:
             return
         t.pending = (kind, obj)
         self.current = None
-        self.ctl.release()
+        nxt = self._decide()
+        if nxt is t:  # the same thread continues: no context switch at all
+            self.current = t
+            return
+        if nxt is None:
+            self.fin.release()
+        else:
+            nxt.sem.release()
         t.sem.acquire()
         if self.aborting:
             raise Abort()
         self.current = t
-
-    def _tracer(self, frame, event, arg):
-        if frame.f_code in self.line_codes:
-            return self._local
-        return None
-
-    def _local(self, frame, event, arg):
-        if event == "line" and not self.aborting and self.current is not None:
-            self.point("line", frame.f_lineno)
-        return self._local
 
     def _run_task(self, t):
         t.sem.acquire()
@@ -196,13 +255,7 @@ class Sched:
             if self.aborting:
                 return
             self.current = t
-            if self.line_codes:
-                sys.settrace(self._tracer)
-            try:
-                t.body(t)
-            finally:
-                if self.line_codes:
-                    sys.settrace(None)
+            t.body(t)
         except Abort:
             pass
         except BaseException as e:  # harness error inside a body
@@ -210,10 +263,11 @@ class Sched:
         finally:
             t.done = True
             t.pending = ("done", None)
-            self.current = None
-            self.ctl.release()
+            if not self.aborting:
+                self.current = None
+                self._handoff()
 
-    # ---------------------------------------------------------------- controller side
+    # ---------------------------------------------------------------- decisions
     @staticmethod
     def enabled(t):
         if t.done:
@@ -225,21 +279,18 @@ class Sched:
             return obj.flag
         return True
 
-    def run(self):
-        for t in self.tasks:
-            t.thread = _real.Thread(target=self._run_task, args=(t,), daemon=True)
-            t.thread.start()
-        last = None
-        while True:
+    def _decide(self):
+        try:
             if self.on_decision is not None:
                 self.on_decision(self)
             en = [t.idx for t in self.tasks if self.enabled(t)]
             if not en:
                 self.outcome = "ok" if all(t.done for t in self.tasks) else "deadlock"
-                break
+                self.stuck = [(t.idx, t.pending[0]) for t in self.tasks if not t.done]
+                return None
             if self.steps >= self.max_steps:
                 self.outcome = "steplimit"
-                break
+                return None
             self.steps += 1
             # A pending step that touches no shared state (thread start, return from a
             # wait whose event is already set, continuation after a release) commutes
@@ -248,24 +299,61 @@ class Sched:
             if loc:
                 ch = loc[0]
             else:
-                alts, ch = self.choose(en, last, len(self.trace))
+                alts, ch = self.choose(en, self.last, len(self.trace))
                 self.trace.append((tuple(alts), ch))
-            t = self.tasks[ch]
-            last = ch
-            t.sem.release()
-            if not self.ctl.acquire(timeout=60):
-                self.outcome = "hang"
-                break
-        self._finish()
-        return self.outcome
+            self.last = ch
+            return self.tasks[ch]
+        except BaseException as e:  # a bug in a hook or chooser
+            self.fault = e
+            self.outcome = "fault"
+            return None
 
-    def _finish(self):
+    def run(self):
+        workers = [_get_worker() for _ in self.tasks]
+        for w, t in zip(workers, self.tasks):
+            w.job = (self, t)
+            w.sem.release()
+        nxt = self._decide()
+        if nxt is not None:
+            nxt.sem.release()
+            if not self.fin.acquire(120):
+                self.outcome = "hang"
         self.aborting = True
         for t in self.tasks:
             if not t.done:
                 t.sem.release()
-        for t in self.tasks:
-            t.thread.join(timeout=10)
+        for w in workers:
+            if w.done.acquire(10):
+                _POOL.append(w)
+        if self.fault is not None:
+            raise HarnessFault("scheduler hook failed: %r" % (self.fault,))
+        return self.outcome
+
+
+class _Worker:
+    def __init__(self):
+        self.job = None
+        self.sem = _Sem()
+        self.done = _Sem()
+        self.thread = _real.Thread(target=self._loop, daemon=True)
+        self.thread.start()
+
+    def _loop(self):
+        while True:
+            self.sem.acquire()
+            sched, t = self.job
+            self.job = None
+            try:
+                sched._run_task(t)
+            finally:
+                self.done.release()
+
+
+_POOL = []
+
+
+def _get_worker():
+    return _POOL.pop() if _POOL else _Worker()
 
 
 # -------------------------------------------------------------------- choosers
